@@ -123,10 +123,23 @@ struct Ev {
     message: String,
     task: String,
     oversize: bool,
+    /// other free-text fields of a stored event (None = an ordinary value)
+    version: Option<String>,
+    timestamp: Option<String>,
+    level: Option<String>,
 }
 
 fn mk_event(e: &Ev) -> Event {
-    Event { EventLevel: "Info".into(), Message: e.message.clone(), Version: "1.0.0".into(), TaskName: e.task.clone(), EventPid: "123".into(), EventTid: "456".into(), OperationId: e.id.clone(), TimeStamp: "2026-01-01T00:00:00.000Z".into() }
+    Event {
+        EventLevel: e.level.clone().unwrap_or("Info".into()),
+        Message: e.message.clone(),
+        Version: e.version.clone().unwrap_or("1.0.0".into()),
+        TaskName: e.task.clone(),
+        EventPid: "123".into(),
+        EventTid: "456".into(),
+        OperationId: e.id.clone(),
+        TimeStamp: e.timestamp.clone().unwrap_or("2026-01-01T00:00:00.000Z".into()),
+    }
 }
 
 fn rendered_size(events: &[Ev]) -> usize {
@@ -254,6 +267,8 @@ fn main() {
                 c.posts.push((m.body.clone(), a));
                 match a {
                     0 => Action::Reset,
+                    // the host accepts the batch (200) but its answer's body is cut short: 64 bytes announced, 8 sent, connection closed
+                    1200 => Action::ReplyClose(vec![b"HTTP/1.1 200 OK\r\nContent-Type: text/plain\r\nContent-Length: 64\r\n\r\naccepted".to_vec()]),
                     s => Action::Reply(vec![simple_response(s, &[], b"")]),
                 }
             } else {
@@ -276,15 +291,15 @@ fn main() {
         ("bare-cdata-end-only", "]]>"),
         ("looks-like-param", "\" /><Param Name=\"Injected\" Value=\"1"),
     ];
-    let base1 = rendered_size(&[Ev { id: "ev-0".into(), message: String::new(), task: "t".into(), oversize: false }]);
-    let base2 = rendered_size(&[Ev { id: "ev-0".into(), message: String::new(), task: "t".into(), oversize: false }, Ev { id: "ev-1".into(), message: String::new(), task: "t".into(), oversize: false }]);
+    let base1 = rendered_size(&[Ev { id: "ev-0".into(), message: String::new(), task: "t".into(), oversize: false, version: None, timestamp: None, level: None }]);
+    let base2 = rendered_size(&[Ev { id: "ev-0".into(), message: String::new(), task: "t".into(), oversize: false, version: None, timestamp: None, level: None }, Ev { id: "ev-1".into(), message: String::new(), task: "t".into(), oversize: false, version: None, timestamp: None, level: None }]);
     let per_event = base2 - base1; // bytes one more (empty-message) event adds
     let envelope = base1 - per_event;
     let mut cases: Vec<(Value, Vec<Vec<Ev>>, Vec<u16>)> = Vec::new();
     let mut nid = 0usize;
     let mut ev = |message: String, task: &str| -> Ev {
         nid += 1;
-        Ev { id: format!("ev-{nid}"), message, task: task.to_string(), oversize: false }
+        Ev { id: format!("ev-{nid}"), message, task: task.to_string(), oversize: false, version: None, timestamp: None, level: None }
     };
     // (a) counts x content classes, one and two files
     for (cname, text) in &classes {
@@ -295,6 +310,22 @@ fn main() {
                 let f2: Vec<Ev> = (0..2).map(|i| ev(format!("{text} second file #{i}"), cname)).collect();
                 cases.push((json!({"family": "content", "class": cname, "events": count, "files": 2}), vec![f1, f2], vec![]));
             }
+        }
+    }
+    // (a2) the same content classes in the other free-text fields of a stored event (version, time stamp, level): a file
+    // is whatever lies in the event folder, not only what this agent version writes
+    for (cname, text) in &classes {
+        for field in ["version", "timestamp", "level"] {
+            let mut e1 = ev(format!("field {field} #{cname}"), "other-field");
+            let mut e2 = ev("a plain event behind it".to_string(), "other-field");
+            let v = Some(text.to_string());
+            match field {
+                "version" => e1.version = v,
+                "timestamp" => e1.timestamp = v,
+                _ => e1.level = v,
+            }
+            e2.version = None;
+            cases.push((json!({"family": "content-in-other-field", "class": cname, "field": field}), vec![vec![e1, e2]], vec![]));
         }
     }
     // (b) sizes: batch of k events whose total rendered size is exactly LIMIT-1 / LIMIT / LIMIT+1
@@ -357,7 +388,7 @@ fn main() {
             cases.push((json!({"family": "upload-answers", "answers": answers}), vec![f], answers));
         }
     }
-    for answers in [vec![0u16, 200], vec![0, 0, 0, 0, 0, 200], vec![500, 0, 200]] {
+    for answers in [vec![0u16, 200], vec![0, 0, 0, 0, 0, 200], vec![500, 0, 200], vec![1200], vec![1200, 200], vec![500, 1200, 200], vec![1200, 1200]] {
         let f: Vec<Ev> = vec![ev("x".repeat(40 * 1024), "retry"), ev("y".repeat(40 * 1024), "retry")];
         cases.push((json!({"family": "upload-answers", "answers": answers}), vec![f], answers));
     }
@@ -411,11 +442,20 @@ fn main() {
                                 if params.get("Context1") != Some(&orig.message) || params.get("TaskName") != Some(&orig.task) {
                                     res.violation(&format!("event-text-changed:{}", orig.task), &format!("event {id}: uploaded text {:?} differs from the stored text {:?}", params.get("Context1").map(|s| s.chars().take(60).collect::<String>()), orig.message.chars().take(60).collect::<String>()), desc.clone());
                                 }
+                                let want_version = orig.version.clone().unwrap_or("1.0.0".into());
+                                let want_ts = orig.timestamp.clone().unwrap_or("2026-01-01T00:00:00.000Z".into());
+                                let want_level = orig.level.clone().unwrap_or("Info".into());
+                                for (pname, want) in [("GAVersion", &want_version), ("OpcodeName", &want_ts), ("Context2", &want_ts), ("CapabilityUsed", &want_level)] {
+                                    if params.get(pname) != Some(want) {
+                                        res.violation(&format!("event-text-changed:{pname}"), &format!("event {id}: uploaded {pname} {:?} differs from the stored text {:?}", params.get(pname).map(|s| s.chars().take(60).collect::<String>()), want.chars().take(60).collect::<String>()), desc.clone());
+                                    }
+                                }
                                 if params.len() != 23 {
                                     res.violation("event-param-count", &format!("event {id} has {} params (expected 23): injected or missing fields", params.len()), desc.clone());
                                 }
                                 occurs.entry(id.clone()).or_default().insert(digest);
-                                if (200..300).contains(status) && seen_body_ok.insert(digest ^ vcommon::explore::fnv(id.as_bytes())) {
+                                let _ = &mut seen_body_ok;
+                                if (200..300).contains(status) || *status == 1200 {
                                     *accepted.entry(id).or_insert(0) += 1;
                                 }
                             }
@@ -454,7 +494,7 @@ fn main() {
     res.cov("measured_envelope_bytes", envelope as u64);
     res.cov("measured_bytes_per_empty_event", per_event as u64);
     res.cov("exhaustive", hung == 0);
-    res.cov("rule", format!("event files x {{1,2}} files x event counts x 10 content classes (markup, CDATA terminators, nested CDATA, 2/3/4-byte UTF-8, attribute-injection text, ...); batches of 1-3 events whose rendered size is exactly limit-2..limit+1 (envelope measured: {envelope} + {per_event} per event), with and without small events behind; one event above the limit first/middle/last, also made of 2-/3-/4-byte characters at every alignment; files without events; every upload answer pattern of length <= {maxp} over {{200, 500}} plus connection resets; each run = one cycle of the real EventReader on a paused clock; bodies parsed with xml-rs (document, then each CDATA payload)"));
+    res.cov("rule", format!("event files x {{1,2}} files x event counts x 10 content classes (markup, CDATA terminators, nested CDATA, 2/3/4-byte UTF-8, attribute-injection text, ...) in the message, and the same classes in the version / time stamp / level fields of a stored event; batches of 1-3 events whose rendered size is exactly limit-2..limit+1 (envelope measured: {envelope} + {per_event} per event), with and without small events behind; one event above the limit first/middle/last, also made of 2-/3-/4-byte characters at every alignment; files without events; every upload answer pattern of length <= {maxp} over {{200, 500}} plus connection resets and accepting answers (200) whose body is cut short; each run = one cycle of the real EventReader on a paused clock; bodies parsed with xml-rs (document, then each CDATA payload)"));
     res.assume("event text is free of control characters (as the statement restricts)");
     res.assume("goal state / shared config / instance documents served by the mock are the samples embedded in the repository's own unit tests");
     std::process::exit(res.finish());
